@@ -19,7 +19,7 @@ for tier, seed in runs:
     if os.path.exists(tmp):
         for l in open(tmp):
             d = json.loads(l)
-            if d["sig"] and d["sig"].startswith(prefix): sigs.add(d["sig"])
+            if d["sig"] and any(d["sig"].startswith(px) for px in prefix.split(",")): sigs.add(d["sig"])
             else: other[(d["rule"], (d["sig"] or "")[:60])] += 1
         os.remove(tmp)
 open(full, "w").write("\n".join(sorted(sigs)) + "\n")
